@@ -639,8 +639,8 @@ def scope_of(repo: Repo, seeds: Iterable[str]) -> list[str]:
 
 
 def generator_names(repo: Repo) -> set[str]:
-    """Names of package functions whose result is a single-pass iterator: generator functions, and (fixpoint) functions all
-    of whose returns hand out such an iterator unmaterialised."""
+    """Names of package functions whose result is (on some path) a single-pass iterator: generator functions, and (fixpoint)
+    functions one of whose returns hands out such an iterator unmaterialised."""
     out = set()
     for q, fn in repo.functions.items():
         if any(isinstance(n, (ast.Yield, ast.YieldFrom)) for n in _own_nodes(fn)):
@@ -652,7 +652,15 @@ def generator_names(repo: Repo) -> set[str]:
             if last in out:
                 continue
             rets = [n for n in _own_nodes(fn) if isinstance(n, ast.Return) and n.value is not None]
-            if rets and all(_is_one_shot(n.value, out) for n in rets):
+            # ANY return that hands out a single-pass iterator makes the result one: on that path a second pass sees nothing
+            # (_generate_file_reports: a list from pool.map, a lazy map() without the pool)
+            def _vals(e: ast.AST) -> list:
+                if isinstance(e, ast.Name):
+                    vs = [st.value for st in _own_nodes(fn) if isinstance(st, (ast.Assign, ast.AnnAssign)) and st.value is not None
+                          and any(isinstance(t, ast.Name) and t.id == e.id for t in (st.targets if isinstance(st, ast.Assign) else [st.target]))]
+                    return vs or [e]
+                return [e]
+            if rets and any(_is_one_shot(v, out) for n in rets for v in _vals(n.value)):
                 out.add(last)
                 grew = True
         if not grew:
